@@ -98,6 +98,15 @@ void partial_palette_case(const Pic& p, unsigned k, bool bottomUp, Stats& st) {
 	o = guarded([&] { cb = custom_bytes(src); }, &what);
 	V_CHECK(o == Out::Ok, "WriteCustomTileset refused a valid tileset picture with " << src.palette.size() << " palette entries: " << what);
 	{ scribble(0x5A); std::vector<uint8_t> again = custom_bytes(src); scribble(0xC3); V_CHECK(again == cb, "two saves of the same partial-palette picture differ (bytes not determined by the picture alone)"); }
+	{ // ... nor on what was saved in between: ANOTHER picture of the same height with a full, different colour table (and one of another height) goes through the writer first
+		Pic other = p; for (size_t i = 0; i < 256; ++i) other.pal[i] = {uint8_t(255 - p.pal[i][0]), uint8_t(p.pal[i][1] ^ 0x5A), uint8_t(i), uint8_t(0xEE)};
+		(void)custom_bytes(make_bmp(other, !bottomUp));
+		std::vector<uint8_t> after = custom_bytes(src);
+		if (after != cb) { size_t at = 0; while (at < after.size() && at < cb.size() && after[at] == cb[at]) ++at; V_CHECK(false, "the bytes saved for a picture with " << k << " colours differ at offset " << at << " once another picture of the same height was saved in between (bytes not determined by the picture alone)"); }
+		Pic small = other; small.h = p.h ? p.h - 32 : 32; small.rows.assign(size_t(small.h) * 32, 7); (void)custom_bytes(make_bmp(small, bottomUp));
+		V_CHECK(custom_bytes(src) == cb, "the bytes saved for a picture with " << k << " colours changed once a picture of another height was saved in between");
+		st.cls("picture:other_pictures_saved_in_between");
+	}
 	size_t want = refgfx::encode_tileset(p.h, std::vector<std::array<uint8_t, 4>>(256), rows).size();   // every section of the described format, 256-entry palette
 	V_CHECK(cb.size() == want, "custom tileset written from a picture with " << src.palette.size() << " palette entries has " << cb.size() << " bytes; the format's sections (256-entry palette, " << p.h << " rows) add up to " << want);
 	std::vector<std::array<uint8_t, 4>> pal256(256);
@@ -215,7 +224,8 @@ void run_case(Tape& t, Stats& st) {
 	case 1: if (t.below(3) == 0) { Pic p = gen_pic(t); if (p.h > 96) { p.h = 96; p.rows.resize(96 * 32); } depth_shaped_case(p, t.pick<unsigned>({1, 4, 4, 2, 16, 24, 32, 0}), unsigned(t.below(8)), st); break; }
 		violating_case(unsigned(t.below(6)), t.u32(), st); break;
 	case 2: { Pic p = gen_pic(t); if (p.h > 64) { p.h = 64; p.rows.resize(64 * 32); } auto f = refgfx::tileset_fields(); size_t field = f[t.below(f.size())]; uint32_t val = t.pick<uint32_t>({0, 1, 2, 4, 8, 16, 31, 32, 33, 64, 1024, 1048, 0x14, 0x7FFFFFE0u, 0x80000000u, 0xFFFFFFE0u, 0xFFFFFFFFu, 0x10008u}); if (t.below(3) == 0) val = refvol::get32(refgfx::encode_tileset(p.h, p.pal, p.rows), field) ^ (1u << t.below(32)); perturbed_custom(p, field, val, st); st.nt(hmix(field, val) ^ 0x99); break; }
-	default: { Pic p = gen_pic(t); if (st.want_sample()) st.sample("{\"picture\":{\"height\":" + std::to_string(p.h) + ",\"palette0\":\"" + hex(p.pal.data(), 8) + "\",\"row0\":\"" + hex(p.rows, 16) + "\"}}"); picture_case(p, st); break; }
+	default: { Pic p = gen_pic(t); if (st.want_sample()) st.sample("{\"picture\":{\"height\":" + std::to_string(p.h) + ",\"palette0\":\"" + hex(p.pal.data(), 8) + "\",\"row0\":\"" + hex(p.rows, 16) + "\"}}"); if (t.below(4) == 0) { Pic q = gen_pic(t); if (q.h > 128) { q.h = 128; q.rows.resize(128 * 32); } if (t.flag()) { q.h = p.h; q.rows.resize(size_t(q.h) * 32, 9); } picture_case(q, st); st.cls("another_picture_processed_first"); }
+		picture_case(p, st); break; }
 	}
 }
 
